@@ -80,6 +80,22 @@ def assign_yaml(run, repo):
                       'disappears from the reactor file' % (kname, 'with unit %r' % unit if unit else 'without unit',
                                                             opt),
                       m, fn, sample='write_yaml(%s: %s) -> %s' % (opt, key, show(got, 60)))
+            if got is not None and isinstance(val, str):
+                # text is the user's own wording of the value ("<value> <unit>" when the option has a unit): it is
+                # written as it stands, nothing appended (quoting is not decided here)
+                sg = I.seg(got) if isinstance(got, (str, SegStr)) else None
+                txt_ = sg.literal().strip().strip('"\'').strip() if sg is not None and sg.is_literal() else None
+                run.check(txt_ == val, 'DATAFLOW.unit', 'io.omkm.write_yaml', key + ' text',
+                          'the text %r given for %s is written as %s: text is carried as the user wrote it, the unit '
+                          'system adds nothing to it' % (val, opt, show(got, 80)), m, fn,
+                          sample='write_yaml(%s=%r) -> %r' % (opt, val, txt_))
+            if got is not None and isinstance(val, Obj) and unit:
+                sg = I.seg(got) if isinstance(got, (str, SegStr)) else None
+                ok = sg is not None and [s_.value for s_ in sg.fields()] in ([val], [val.name]) and \
+                    ''.join(s_.text for s_ in sg.segs if s_.kind == 'lit').strip().strip('"\'').strip() == 'cm3/s'
+                run.check(ok, 'DATAFLOW.unit', 'io.omkm.write_yaml', key,
+                          'a NumPy number with unit template %r is written as %s, expected "<value> cm3/s" for the '
+                          'default unit system' % (unit, show(got, 80)), m, fn)
             if got is not None and isinstance(val, Rat) and unit:
                 sg = I.seg(got)
                 ok = [s_.value for s_ in sg.fields() if isinstance(s_.value, Rat)] == [val] and \
@@ -189,6 +205,30 @@ def reactor_yaml(run, repo):
             extra = [p_ for p_, v_ in leaves(data) if p_ != REACTOR_OPTS[subset[0]][0] + (REACTOR_OPTS[subset[0]][1],)]
             run.check(not extra, 'DATAFLOW.nothing-else', 'io.omkm.write_yaml', 'option:' + subset[0],
                       '[%s] the reactor file also contains %s' % (label, extra), m, fn)
+    # every option that carries a unit, given as text in a unit of the user's choice (documented: "<value> <unit>"),
+    # next to a unit system that would say otherwise: the text is the value, the unit system adds nothing
+    own = {'V': '10 cm3', 'A': '3 mm2', 'L': '2 mm', 'cat_abyv': '5 /mm', 'P': '1 atm', 'residence_time': '4 min',
+           'mass_flow_rate': '1 g/s', 'flow_rate': '1 cm3/s', 'end_time': '2 h'}
+    I = new_interp(repo)
+    fr = Frame(I, repo.module('pmutt'), {}, None, None)
+    u = fr.apply(repo.cls('pmutt.omkm.units.Units'), [], {'length': 'm', 'time': 's', 'pressure': 'bar', 'mass': 'kg'},
+                 None)
+    r = I.call_function(m, fn, [], dict(own, units=u, phases=DictV()))
+    if isinstance(r, Raised) or not I.dumps:
+        run.fail('DATAFLOW.unit', 'io.omkm.write_yaml', 'options given as text with their own unit',
+                 'raises %s / nothing dumped' % show(r), m, fn)
+    else:
+        for k, txt in own.items():
+            path, lab, unit = REACTOR_OPTS[k]
+            cur = I.dumps[-1]
+            for p_ in path:
+                cur = cur.d.get(p_) if isinstance(cur, DictV) else None
+            got = cur.d.get(lab) if isinstance(cur, DictV) else None
+            sg = I.seg(got) if isinstance(got, (str, SegStr)) else None
+            written = sg.literal().strip().strip('"\'').strip() if sg is not None and sg.is_literal() else None
+            run.check(written == txt, 'DATAFLOW.unit', 'io.omkm.write_yaml', 'option:%s as text with its own unit' % k,
+                      'write_yaml(%s=%r, units=Units(length=m, ...)) writes %s/%s: %s; the text is the value, expected '
+                      '%r' % (k, txt, '/'.join(path), lab, show(got, 60), txt), m, fn)
 
 
 def reactor_collections(run, repo):
@@ -510,6 +550,47 @@ def file_assembly(run, repo):
 
 
 # ----------------------------------------------------------------------
+def units_header(run, repo):
+    """the unit system declared at the head of either file is the one the user chose (and the one the numbers below
+    it are written in): every quantity under its own keyword"""
+    import re
+    m = repo.module(OM)
+    chosen = {'length': 'm', 'time': 'min', 'quantity': 'mol', 'energy': 'kcal', 'act_energy': 'kJ/mol',
+              'pressure': 'atm', 'mass': 'g'}
+    yaml_key = {'act_energy': 'activation-energy'}
+    for given_as in ('Units object', 'dictionary'):
+        for writer in ('write_cti', 'write_thermo_yaml'):
+            fn = m.functions.get(writer)
+            if fn is None:
+                raise AnchorError('%s.%s not found' % (OM, writer))
+            I = new_interp(repo)
+            if given_as == 'dictionary':
+                u = DictV(dict(chosen))
+            else:
+                u = Frame(I, repo.module('pmutt'), {}, None, None).apply(repo.cls('pmutt.omkm.units.Units'), [],
+                                                                          dict(chosen), None)
+            out = I.call_function(m, fn, [], {'units': u})
+            got = None
+            if writer == 'write_cti' and isinstance(out, (str, SegStr)) and I.seg(out).is_literal():
+                txt = I.seg(out).literal()
+                i_ = txt.find('units(')
+                j_ = txt.find(')', i_)
+                if i_ >= 0 and j_ > i_ and txt.count('units(') == 1:
+                    pairs = re.findall(r'(\w+)\s*=\s*"([^"]*)"', txt[i_ + 6:j_])
+                    got = dict(pairs) if len(pairs) == len(set(k_ for k_, _v in pairs)) else None
+                want = dict(chosen)
+            elif writer == 'write_thermo_yaml' and not isinstance(out, Raised):
+                secs = [d_.d['units'] for d_ in I.dumps if isinstance(d_, DictV) and list(d_.d) == ['units']]
+                if len(secs) == 1 and isinstance(secs[0], DictV):
+                    got = {k_: I.plain(v_) for k_, v_ in secs[0].d.items()}
+                want = {yaml_key.get(k_, k_): v_ for k_, v_ in chosen.items()}
+            run.check(got == want, 'DATAFLOW.units', 'io.omkm.' + writer, 'unit system declared [%s]' % given_as,
+                      '%s(units=<%s> %s) declares %s' % (writer, given_as, chosen,
+                                                         got if got is not None else show(out, 120)), m, fn,
+                      sample='%s: units section == the chosen unit system (%s)' % (writer, given_as))
+
+
+# ----------------------------------------------------------------------
 def phases_independent(run, repo):
     """phases built without species must not share their species list"""
     for qual in ('pmutt.omkm.phase.InteractingInterface', 'pmutt.omkm.phase.IdealGas', 'pmutt.omkm.phase.StoichSolid',
@@ -748,6 +829,7 @@ def check(run, repo):
     reactor_yaml(run, repo)
     reactor_collections(run, repo)
     file_assembly(run, repo)
+    units_header(run, repo)
     phases_independent(run, repo)
     organize(run, repo)
     from .c07b import emitters
